@@ -238,44 +238,88 @@ func checkC12(p *Program, r *Report) {
 		nApp := 0
 		// the loop may live in the constructor or in a helper of package index it calls; an element may
 		// be appended or stored at its index
+		isEltStore := func(in ssa.Instruction) bool {
+			var elemT types.Type
+			switch x := in.(type) {
+			case *ssa.Call:
+				bi, ok := x.Call.Value.(*ssa.Builtin)
+				if !ok || bi.Name() != "append" {
+					return false
+				}
+				sl, ok := x.Type().Underlying().(*types.Slice)
+				if !ok {
+					return false
+				}
+				elemT = sl.Elem()
+			case *ssa.Store:
+				ia, ok := x.Addr.(*ssa.IndexAddr)
+				if !ok {
+					return false
+				}
+				sl, ok := ia.X.Type().Underlying().(*types.Slice)
+				if !ok {
+					return false
+				}
+				elemT = sl.Elem()
+			default:
+				return false
+			}
+			return isStringType(elemT) || isIntType(elemT)
+		}
+		// the element stores a per-item helper performs on every path through it (no loop of its own)
+		perCall := func(h *ssa.Function) (n int, partial []ssa.Instruction) {
+			if h == nil || len(h.Blocks) == 0 || pkgPathOf(h) != indexPath {
+				return
+			}
+			instrsOf(h, func(b *ssa.BasicBlock, in ssa.Instruction) {
+				if !isEltStore(in) || loopHeaderOf(b) != nil {
+					return
+				}
+				n++
+				for _, e := range h.Blocks {
+					if len(e.Instrs) == 0 {
+						continue
+					}
+					if _, ok := e.Instrs[len(e.Instrs)-1].(*ssa.Return); ok && !b.Dominates(e) {
+						partial = append(partial, in)
+						return
+					}
+				}
+			})
+			return
+		}
+		everyIter := func(b *ssa.BasicBlock, header *ssa.BasicBlock) bool {
+			for i := range header.Preds {
+				if header.Dominates(header.Preds[i]) && !b.Dominates(header.Preds[i]) {
+					return false
+				}
+			}
+			return true
+		}
 		for g := range indexReach(ctor) {
 			instrsOf(g, func(b *ssa.BasicBlock, in ssa.Instruction) {
-				var elemT types.Type
-				switch x := in.(type) {
-				case *ssa.Call:
-					bi, ok := x.Call.Value.(*ssa.Builtin)
-					if !ok || bi.Name() != "append" {
-						return
-					}
-					sl, ok := x.Type().Underlying().(*types.Slice)
-					if !ok {
-						return
-					}
-					elemT = sl.Elem()
-				case *ssa.Store:
-					ia, ok := x.Addr.(*ssa.IndexAddr)
-					if !ok {
-						return
-					}
-					sl, ok := ia.X.Type().Underlying().(*types.Slice)
-					if !ok {
-						return
-					}
-					elemT = sl.Elem()
-				default:
-					return
-				}
-				if !isStringType(elemT) && !isIntType(elemT) {
-					return
-				}
 				header := loopHeaderOf(b)
 				if header == nil {
 					return
 				}
-				nApp++
-				for i := range header.Preds {
-					if header.Dominates(header.Preds[i]) && !b.Dominates(header.Preds[i]) {
+				if isEltStore(in) {
+					nApp++
+					if !everyIter(b, header) {
 						bad = append(bad, "the element stored at "+p.Pos(in.Pos())+" is skipped for some items: keys that never reach the trie are routed by the branch positions of the others")
+					}
+					return
+				}
+				if c, ok := in.(*ssa.Call); ok {
+					n, partial := perCall(c.Common().StaticCallee())
+					if n == 0 {
+						return
+					}
+					nApp += n
+					for _, pi := range partial {
+						bad = append(bad, "the element stored at "+p.Pos(pi.Pos())+" is skipped on some paths of the per-item helper")
+					}
+					if !everyIter(b, header) {
+						bad = append(bad, "the per-item helper called at "+p.Pos(in.Pos())+" is skipped for some items: keys that never reach the trie are routed by the branch positions of the others")
 					}
 				}
 			})
